@@ -19,9 +19,11 @@ BUILD_TARGETS = ["DfolsVerif.Driver.RngDrv"]
 def pre_build(ctx):
     import gen_rngsites
     ctx.cov["rng_sites_in_repo"] = gen_rngsites.regenerate(ctx)
+    import gen_kernels
+    ctx.cov["translated_guards"] = gen_kernels.regenerate_guards(ctx)
 
 
-THEOREMS = ["Dfols.C19.C19_rng_free", "Dfols.C19.C19_src_rng_reach"]
+THEOREMS = ["Dfols.C19.C19_rng_free", "Dfols.C19.C19_src_rng_reach", "Dfols.C19.C19_growing_default_switch"]
 TRUSTED_EXTRA = [
     "PARTIAL: absence of writes to caller data is observed (read-only arrays, byte comparison), not proved (Python aliasing not modelled)",
     "the model only says where draws may occur; that a run without draws is a deterministic function of its arguments is the determinism of CPython/NumPy/LAPACK in one process",
@@ -171,6 +173,13 @@ def one_solve(dfols, prob, kw, state, maxfun):
     return seq, res, rec.sites, mut
 
 
+SPECIALS = [
+    ("cubic-slow-progress", lambda x: np.array([1e3, x[0] ** 3]), np.array([1.0]), {"maxfun": 100, "rhoend": 1e-8}),
+    ("rosenbrock-slow-limit", lambda x: np.array([10.0 * (x[1] - x[0] ** 2), 1.0 - x[0]]), np.array([-1.2, 1.0]),
+     {"maxfun": 100, "rhoend": 1e-8, "user_params": {"slow.max_slow_iters": 5}}),
+]
+
+
 def _all(ctx):
     if hasattr(ctx, "_c19"):
         return ctx._c19
@@ -186,6 +195,14 @@ def _all(ctx):
             b = one_solve(dfols, prob, kw, 999 + 7 * i, maxfun)
             rows.append((i, name, kw, prob["n"], a, b))
             ctx.seen(("c19", i, name))
+    # a slow-progress problem (history-dependent termination logic): state that survives from one solve() to the next in the
+    # same process makes the second call differ from the first
+    for j, (name, f, x0, kw) in enumerate(SPECIALS):
+        prob = {"n": len(x0), "x0": x0, "f": f}
+        a = one_solve(dfols, prob, kw, 4321 + j, 100)
+        b = one_solve(dfols, prob, kw, 8765 + j, 100)
+        rows.append((nprob + j, name, kw, prob["n"], a, b))
+        ctx.seen(("c19", nprob + j, name))
     ctx._c19 = rows
     return rows
 
@@ -244,6 +261,14 @@ def replay(payload):
     if "problem_seed" not in rp:
         print("replay names a broken obligation:", payload.get("broken"))
         return 1
+    for name, f, x0, kw in SPECIALS:
+        if name == rp.get("family"):
+            prob = {"n": len(x0), "x0": x0, "f": f}
+            a = one_solve(dfols, prob, kw, 1, 100)
+            b = one_solve(dfols, prob, kw, 2, 100)
+            bad = a[3] or b[3] or (a[0] != b[0]) or (a[1] != b[1])
+            print("replay:", "still fails" if bad else "property holds on this input now")
+            return 1 if bad else 0
     rng = np.random.default_rng(rp["problem_seed"])
     prob = problems.rand_problem(rng)
     maxfun = int(rng.choice([20, 40, 60]))
